@@ -399,7 +399,8 @@ def run_case(check_config, case, ctx=None):
         for c_in, m_in in inputs:
             # the converters the result was derived from still answer for themselves
             if len(fails) == before:
-                check_config(c_in, m_in, Q[:120], fails, where + " (an input of the derivation, afterwards)", None)
+                zq = [z + t for z in ("zz4", "zz5", "zz5s", "zz9", "zs9", "zt9") for t in ("/1", d + "1")]
+                check_config(c_in, m_in, Q[:120] + zq, fails, where + " (an input of the derivation / a relative, afterwards)", None)
         if ctx is not None and len(fails) == before:
             ctx.count("validated")
         for i in range(before, len(fails)):
